@@ -22,7 +22,7 @@ import (
 // the named modes plus every subset of the option set {custom branches, JSON, dry run, extensions} in two orders
 // ("opts:<bits>" / "opts-rev:<bits>"): whatever a combination means, both builds must agree on it
 var modes = func() []string {
-	m := []string{"text", "custom", "json", "dry", "custom-empty", "custom-mixed"}
+	m := []string{"text", "custom", "json", "dry", "custom-empty", "custom-mixed", "dry-blank-ext", "dry-dup-ext"}
 	for bits := 3; bits < 16; bits++ {
 		if bits&(bits-1) == 0 {
 			continue // single options are the named modes
@@ -76,6 +76,11 @@ func opts(mode string) []gtree.Option {
 		return []gtree.Option{gtree.WithEncodeJSON()}
 	case "dry":
 		return []gtree.Option{gtree.WithDryRun(), gtree.WithFileExtensions([]string{".go", "b"})}
+	case "dry-blank-ext":
+		// what splitting an empty or sloppy extensions field on commas yields: empty and blank entries
+		return []gtree.Option{gtree.WithDryRun(), gtree.WithFileExtensions([]string{".go", "", " "})}
+	case "dry-dup-ext":
+		return []gtree.Option{gtree.WithFileExtensions([]string{"a", ".go", "a", "b.go"}), gtree.WithDryRun()}
 	}
 	return nil
 }
@@ -105,6 +110,7 @@ func run(doc, mode string) (out string, err error, pan string) {
 func lineAlphabet(u string) []string {
 	return []string{"- a", "- b", u + "- a", u + "- b", u + u + "- a", u + u + u + "- a", u[:len(u)/2] + " - a", u + "a", u + "-", "\t " + "- a", "", "   ", "# h", "* a", "+ b.go", u + "* b",
 		u + "- x/y",   // not a valid path element: dry run must reject it (in both builds, whatever was rendered before)
+		"- r/s", "- ..", // the same for a root (with or without items below it)
 		u + "- <&>\"", // characters with special treatment in JSON / HTML
 		u + "- p ├── └── +-- `-- q", // a name that contains every connector in use, each followed by a blank
 	}
@@ -144,7 +150,7 @@ func cases(tier string, want func(docIdx int64) bool, f func(idx int64, doc, mod
 				}
 				nm := nModes
 				if L >= 4 {
-					nm = 6 // the longest documents go through the named modes only
+					nm = 8 // the longest documents go through the named modes only
 				}
 				emitN(nm, func() string {
 					doc := strings.Join(enum.Pick(alpha, t), "\n")
@@ -169,7 +175,7 @@ func cases(tier string, want func(docIdx int64) bool, f func(idx int64, doc, mod
 						if !ok {
 							return
 						}
-						emitN(6, func() string {
+						emitN(8, func() string {
 							doc := strings.Join(enum.Pick(alpha, t), "\n")
 							if L > 0 {
 								doc += "\n"
